@@ -240,3 +240,40 @@ Proof.
     cbn [fst snd]. rewrite app_nil_r. unfold lenZ. rewrite map_length, Z.eqb_refl. cbn [andb].
     destruct R3 as [-> | [r ->]]; reflexivity.
 Qed.
+
+(* ---------- C10: a startup packet within the limit is served ---------- *)
+Lemma run_mws_all_ok : forall mws i, forallb (fun ok : bool => ok) mws = true -> snd (run_mws mws i) = true.
+Proof.
+  induction mws as [|ok r IH]; intros i H; [reflexivity|]. cbn [forallb] in H. apply andb_prop in H as [-> H2].
+  cbn [run_mws]. specialize (IH (i + 1) H2). destruct (run_mws r (i + 1)). exact IH.
+Qed.
+
+Theorem startup_served_model sc :
+  (forall v after rest, start (cfg_of_case sc) (sc_raw sc) = Some (v, after, rest) -> v <> version_ssl) ->
+  startup_served sc (run_case sc) = true.
+Proof.
+  intros Hssl. unfold startup_served, startup_pairs, run_case, serve.
+  change (sc_limit sc) with (cfg_limit (cfg_of_case sc)).
+  destruct (start (cfg_of_case sc) (sc_raw sc)) as [[[v after] rest]|] eqn:Es.
+  2: { rewrite (start_none_packet _ _ Es). reflexivity. }
+  rewrite (start_packet_pairs _ _ _ _ _ Es).
+  change 80877102 with version_cancel. change 80877103 with version_ssl.
+  destruct (v =? version_cancel); [reflexivity|].
+  destruct (Z.eqb_spec v version_ssl) as [->|_]; [exfalso; eapply Hssl; eauto|].
+  destruct (read_params (S (List.length after)) after) as [cparams|] eqn:Er; [|reflexivity].
+  destruct (sc_auth sc) as [[m pw]|] eqn:Ha; [reflexivity|].
+  destruct (forallb (fun ok : bool => ok) (sc_mws sc)) eqn:Hm; [|reflexivity].
+  unfold session. rewrite Er. unfold auth_phase. cbn [cfg_of_case cfg_auth]. rewrite Ha. cbn [negb].
+  pose proof (run_mws_all_ok (sc_mws sc) 0 Hm) as Hok. cbn [cfg_of_case cfg_mws].
+  destruct (run_mws (sc_mws sc) 0) as [mevs mok]. cbn [snd] in Hok. subst mok. cbn [negb].
+  destruct (frames _ rest) as [fs tl].
+  rewrite !oouts_app. rewrite !existsb_app. cbn. rewrite !orb_true_r. reflexivity.
+Qed.
+
+Theorem oracle_C10_model sc :
+  case_nocopy sc = true ->
+  (forall v after rest, start (cfg_of_case sc) (sc_raw sc) = Some (v, after, rest) -> v <> version_ssl) ->
+  oracle_C10 sc (run_case sc) = true.
+Proof.
+  intros Hn Hssl. unfold oracle_C10. rewrite (oracle_turns_model_auth sc Hn Hssl), (startup_served_model sc Hssl). reflexivity.
+Qed.
